@@ -35,7 +35,7 @@ IsEvent(a) == l <= Len(tr.ev) /\ Ev.a = a /\ l' = l + 1 /\ UNCHANGED <<tid, tr, 
 \* a call site prints the same formula, or nothing when it is blank; it never fails the document
 SameOrAbsent(ch, out) ==
     \/ ch.st = "na"
-    \/ ch.st = "ok" /\ ~out.x /\ NoWS(ch.o) = NoWS(out.o)
+    \/ ch.st = "ok" /\ ~out.x /\ ch.o = out.o              \* verbatim, blanks included
     \/ ch.st = "absent" /\ ~out.x /\ Blank(out.o)
 
 TraceTotal   == IsEvent("Total") /\ Total(Ev.out)
